@@ -140,8 +140,20 @@ def r3_dump(ctx):
     dump = ctx.prog.func(f'{N.PUBLIC}.dump')
     dumps = ctx.prog.func(f'{N.PUBLIC}.dumps')
     maps = {}
-    for f in (dump, dumps):
+    delegated = None
+    for f in (dumps, dump):
         calls = [c for c in walk_local(f.node) if isinstance(c, ast.Call) and src(c.func).endswith('parse_options_to_ExportOptions')]
+        if not calls and f is dump:
+            # dump written as "dumps + write": its option map is the composition of its forwarding call with the map of dumps
+            inner = [c for c in walk_local(f.node) if isinstance(c, ast.Call) and isinstance(c.func, ast.Name) and c.func.id == 'dumps'
+                     and getattr(ctx.prog.resolve(f.module, 'dumps'), 'value', None) is dumps]
+            if len(inner) == 1 and len(inner[0].args) <= 1 and not any(k.arg is None for k in inner[0].keywords):
+                fwd = _kwmap(inner[0])
+                pnames = set(dumps.kwonly)
+                if all(v in pnames or v == 'None' for v in maps['dumps'].values()):
+                    maps['dump'] = {opt: fwd.get(v, 'None') if v in pnames else v for opt, v in maps['dumps'].items()}
+                    delegated = inner[0]
+                    continue
         if len(calls) != 1:
             raise AnalysisError(f'{f.loc}: parse_options_to_ExportOptions call not found')
         if calls[0].args:
@@ -168,8 +180,16 @@ def r3_dump(ctx):
     ok = len(rets) == 1 and src(rets[0][1]).startswith('generic.Generic.export(document, generic.Generic.parse_options_to_ExportOptions(')
     ctx.check(ok, 'R3', dumps.loc, dumps.qualname, 'dumps-delegates', 'dumps = Generic.export(document, parsed options)')
     rets = symex.returns(dump)
-    ok = len(rets) == 1 and src(rets[0][1]).startswith('generic.Generic.store(document, fp, generic.Generic.parse_options_to_ExportOptions(')
-    ctx.check(ok, 'R3', dump.loc, dump.qualname, 'dump-delegates', 'dump = Generic.store(document, fp, parsed options)')
+    if delegated is not None:
+        wb = ctx.prog.resolve(dump.module, '_write')
+        ok = (len(rets) == 1 and src(rets[0][1]).startswith('_write(fp, dumps(document') and wb is not None
+              and getattr(wb, 'value', None) is ctx.prog.func(f'{N.IO}._write'))
+        if not ok:
+            raise AnalysisError(f'{dump.loc}: dump forwards to dumps but what it does with the text is not followed')
+        ctx.check(ok, 'R3', dump.loc, dump.qualname, 'dump-delegates', 'dump = _io._write(fp, dumps(document, forwarded options))')
+    else:
+        ok = len(rets) == 1 and src(rets[0][1]).startswith('generic.Generic.store(document, fp, generic.Generic.parse_options_to_ExportOptions(')
+        ctx.check(ok, 'R3', dump.loc, dump.qualname, 'dump-delegates', 'dump = Generic.store(document, fp, parsed options)')
     store = ctx.prog.func(f'{N.GENERIC}.Generic.store')
     doc, path, opt = store.params[1:4]
     writes = []
